@@ -531,7 +531,7 @@ bool Annotator::AnnotatorImpl::exists(const std::string &id, size_t index, bool 
     }
 
     auto count = mAnnotator->itemCount(id);
-    if (count == 1) {
+    if ((count == 1) && (index == 0)) {
         return true;
     }
     if (unique && count > 1) {
